@@ -246,10 +246,10 @@ namespace Scalibr.Suggest
 open Scalibr.Upgrade
 
 /-- invariant of the fold over the known versions -/
-def Good (level : Nat) (cur : Option V) (vs : List V) (w : V) : Prop :=
-  w ∈ vs ∧ allows level w.diff = true ∧ ltOpt w cur = false
+def Good (level : Nat) (cur : V) (vs : List V) (w : V) : Prop :=
+  w ∈ vs ∧ allows level w.diff = true ∧ cur.rank < w.rank
 
-theorem fold_spec (level : Nat) (cur : Option V) (all vs : List V) (acc : Option V) (hsub : ∀ v ∈ vs, v ∈ all)
+theorem fold_spec (level : Nat) (cur : V) (all vs : List V) (acc : Option V) (hsub : ∀ v ∈ vs, v ∈ all)
     (hacc : ∀ w, acc = some w → Good level cur all w) :
     ∀ w, vs.foldl (step level cur) acc = some w → Good level cur all w := by
   induction vs generalizing acc with
@@ -268,6 +268,6 @@ theorem fold_spec (level : Nat) (cur : Option V) (all vs : List V) (acc : Option
           · exact hacc w hw
           · injection hw with hw; subst hw
             rename_i h1 h2 h3
-            exact ⟨hsub v (by simp), by simpa using h2, by simpa using h3⟩
+            exact ⟨hsub v (by simp), by simpa using h2, by omega⟩
 
 end Scalibr.Suggest
